@@ -107,7 +107,7 @@ func NewScanner(tm *pgtype.Map, column Column, format FormatCode) (Scanner, erro
 	}
 
 	return func(value []byte) (any, error) {
-		return typed.Codec.DecodeValue(tm, typed.OID, int16(format), value)
+		return decodeValue(tm, typed, format, value)
 	}, nil
 }
 
